@@ -86,8 +86,11 @@ func executeCompaction(db *DB) (compactionMetadata *proto.CompactionMetadata, er
 		return nil, err
 	}
 
+	writerClosed := false
 	defer func() {
-		err = errors.Join(err, writer.Close())
+		if !writerClosed {
+			err = errors.Join(err, writer.Close())
+		}
 	}()
 
 	var readers []sstables.SSTableReaderI
@@ -118,6 +121,13 @@ func executeCompaction(db *DB) (compactionMetadata *proto.CompactionMetadata, er
 
 	reduceFunc := sstables.ScanReduceLatestWinsSkipTombstones
 	err = sstables.NewSSTableMerger(db.cmp).MergeCompact(iterators, writer, reduceFunc)
+	if err != nil {
+		return nil, err
+	}
+
+	// the table has to be complete on disk before the success flag below may exist
+	writerClosed = true
+	err = writer.Close()
 	if err != nil {
 		return nil, err
 	}
